@@ -13,7 +13,7 @@ CONSTANTS
   Gaps = {"0", "1", "2", "3", "4", "2s", "3s"}
   MaxItems = 2
   MaxLvl = 2
-  Origins = {"message", "field", "enum", "value", "service", "method"}
+  Origins = {"message", "response", "field", "enum", "value", "service", "method"}
   Mutant = "none"
 INIT Init
 NEXT NextInputs
